@@ -333,7 +333,7 @@ func (priv *PrivateKey) inverseOfPrivateKeyPlus1(c *sm2Curve) (*bigmod.Nat, erro
 			}
 		}
 	})
-	if err != nil {
+	if err != nil || priv.inverseOfKeyPlus1 == nil {
 		return nil, errInvalidPrivateKey
 	}
 	return priv.inverseOfKeyPlus1, nil
